@@ -80,14 +80,20 @@ func r181MergeErrors(c *an.Ctx) {
 		}
 		en, eKnown := env["err==nil"]
 		on, oKnown := env["other==nil"]
-		var want string
+		// the reference: nil ⊕ x = x and x ⊕ nil = x, the operand itself. A path that knows err == nil may
+		// return other without looking at it (other is nil exactly when the result must be nil); symmetrically.
+		var want []string
 		switch {
 		case eKnown && en && oKnown && on:
-			want = "nil"
+			want = []string{"nil", "p0", "p1"}
 		case eKnown && en && oKnown && !on:
-			want = "p1"
+			want = []string{"p1"}
+		case eKnown && en && !oKnown:
+			want = []string{"p1"}
 		case eKnown && !en && oKnown && on:
-			want = "p0"
+			want = []string{"p0"}
+		case oKnown && on && !eKnown:
+			want = []string{"p0"}
 		case eKnown && oKnown:
 			continue // both non-nil: checked below
 		default:
@@ -102,12 +108,18 @@ func r181MergeErrors(c *an.Ctx) {
 		if st := storesOutsideLocals(p); len(st) > 0 {
 			got += " after modifying " + strings.Join(st, ",")
 		}
-		if got != want {
-			nilProbs = append(nilProbs, fmt.Sprintf("under [%s] MergeErrors yields %s, expected %s", p.GuardString(), got, want))
+		okRow := false
+		for _, w := range want {
+			if got == w {
+				okRow = true
+			}
+		}
+		if !okRow {
+			nilProbs = append(nilProbs, fmt.Sprintf("under [%s] MergeErrors yields %s, expected %s", p.GuardString(), got, strings.Join(want, " or ")))
 		}
 	}
-	if nilRows < 3 {
-		nilProbs = append(nilProbs, fmt.Sprintf("only %d nil rows found, expected 3", nilRows))
+	if nilRows < 2 {
+		nilProbs = append(nilProbs, fmt.Sprintf("only %d nil rows found, expected at least 2", nilRows))
 	}
 	if len(nilProbs) > 0 {
 		c.Failf(rule, f.Name+"#nil-identity", f.Decl.Pos(), "%s", strings.Join(nilProbs[:min(3, len(nilProbs))], " | "))
